@@ -327,6 +327,16 @@ package lang
 //@   at call dynamic:GoFunctions[]#1 assert !(p.Scope.Id != ShellProcess.Id && $isPrivate(name, p.FileRef)) && imp($isAlias(name), parsedAlias || p.Parent.Name.name == "alias") && !$isFunc(name)
 //@   at call (*Fork).Execute#2 assert err == nil
 //@   loop 1 step imp(old(parsedAlias), parsedAlias)
+// an expansion always sets the expanded-once guard, whatever the alias consists of
+//@   loop 1 step imp(calledsince("(*Aliases).Get"), parsedAlias)
+// the body that runs is the one found, in a fork that carries the DEFINING module's identity (so the
+// body's own private functions resolve in the module that defined it, not in the caller's)
+//@   at call (*Fork).Execute#1 assert arg0 == ret("(*Process).Fork#1") && arg1 == ret("(*privateFunctions).get#1").Block && ret("(*Process).Fork#1").FileRef == ret("(*privateFunctions).get#1").FileRef
+//@   at call (*Fork).Execute#2 assert arg0 == ret("(*Process).Fork#2") && arg1 == ret("(*MurexFuncs).get#1").Block && ret("(*Process).Fork#2").FileRef == ret("(*MurexFuncs).get#1").FileRef
+// (trusted frame: castParameters binds variables in the fork's variable table; nothing this function
+// reads afterwards - FileRef, Block, the fork itself - is assigned by it)
+//@   at call (*murexFuncDetails).castParameters#1 modifies nothing
+//@   at call (*murexFuncDetails).castParameters#1 assert arg0 == ret("(*MurexFuncs).get#1") && arg1 == ret("(*Process).Fork#2").Process && arg1.FileRef == ret("(*MurexFuncs).get#1").FileRef
 
 // ---- C11: variable scoping (lang/variables.go, Fork) -------------------------------------------------------
 // $varVal(table, name): the value stored under name in that table, nil if absent (trusted getter
